@@ -5,7 +5,8 @@
               seeded standard return sequence.  Oracle: interrupt transparency — the sequence of main-program views (its register
               bank, CPSR, PC, its data and stack pages) equals that of the fault-free run, the interrupted CPSR is restored exactly,
               and the program finishes within a bounded number of ticks after the last fault.
-'psr_walk'    histories of MSR (register/immediate, CPSR/SPSR, all byte masks), CPS, SETEND, MRS in every mode, Secure/Non-secure,
+'psr_walk'    histories of MSR (register/immediate, CPSR/SPSR, all byte masks), CPS, SETEND, MRS and exception returns with arbitrary saved
+              PSRs (SUBS/MOVS pc,lr; ERET; RFE; LDM {pc}^) in every mode, Secure/Non-secure,
               NMFI, SCR.AW/FW, with and without the extensions, both ISAs.  Oracle: models/cpsr_write step by step.
 'hints'       NOP/YIELD/WFE/WFI/SEV change nothing but PC, event register and wait flags; a core in WFI is woken by an interrupt,
               the handler returns to the instruction after the WFI and the program finishes (bounded liveness).
@@ -25,7 +26,9 @@ PROPERTY = 'C12'
 LEVEL = 'exploration'
 BUDGET_S = {'quick': 150, 'thorough': 2400}
 RULE = ("irq_return: seeded main programs (loops, PUSH/POP, LDM/STM, conditional code, IT blocks, SVC, UDF) x main mode x ISA x handler ISA x "
-        "return instruction per exception kind x seeded IRQ/FIQ schedules (nested FIQ-in-handler included); psr_walk: seeded op histories; hints / "
+        "return instruction per exception kind (SUBS/MOVS pc, LDM^, four SRS/RFE pairs, return inside an IT block, SRS+CPS+RFE from System/Supervisor mode, "
+        "Monitor handlers behind MVBAR, Hyp handlers behind HVBAR returning with ERET) x seeded IRQ/FIQ schedules (nested FIQ-in-handler included); psr_walk: seeded "
+        "op histories incl. exception returns by SUBS/MOVS pc, ERET (also from Hyp mode), RFE and LDM {pc}^ with arbitrary saved PSRs; hints / "
         "coproc: seeded single-instruction and wake-up cases. distinct_nontrivial = distinct (interrupted mode, ISA, in-IT, exception kind, return "
         "sequence, handler ISA) tuples with a completed return + distinct (op, mode, secure, bytemask, changed-field set) tuples of psr_walk + "
         "distinct (hint, encoding, outcome) and (coproc instruction, access-control outcome, mode, secure) tuples.")
